@@ -332,7 +332,8 @@ func genFull(seed int64, property string) *Plan {
 	if r.Intn(3) == 0 {
 		p.Proc.ResyncSec = []int{20, 60, 600}[r.Intn(3)]
 	}
-	p.Sched = SchedOpts{Mode: []string{"fifo", "fifo", "random"}[r.Intn(3)], FifoBias: 500 + r.Intn(480), StallPm: []int{0, 0, 5, 20}[r.Intn(4)]}
+	p.Sched = SchedOpts{Mode: []string{"fifo", "fifo", "random"}[r.Intn(3)], FifoBias: 500 + r.Intn(480), StallPm: []int{0, 0, 5, 20}[r.Intn(4)],
+		APILatencyUs: []int{500, 1000, 3000, 10000}[r.Intn(4)]}
 	// dynamic config
 	p.Dyn.MaxMissedSchedules = i64(int64(1 + r.Intn(6)))
 	p.Dyn.MaxDowntimeSec = []int64{0, 30, 300}[r.Intn(3)]
@@ -409,6 +410,10 @@ func genFull(seed int64, property string) *Plan {
 		weights = map[string]int{"ok": 10, "fail": 4, "slow": 3}
 		faulty = true
 		crashes = false
+		p.Sched.StallPm = 0
+		p.Dyn.MaxEnqueuedJobs = nil
+		p.Dyn.DefaultTTLSec = []*int64{i64(0), i64(10), i64(100000)}[r.Intn(3)]
+		p.Proc.ResyncSec = 0
 	}
 	p.PodScripts = pickScripts(r, weights, 3+r.Intn(6))
 
@@ -503,7 +508,7 @@ func genFull(seed int64, property string) *Plan {
 			p.Ops = append(p.Ops, UserOp{AtMs: at, Kind: "killJob", NS: "default", Name: name, OffMs: off})
 		}
 	}
-	if property == "C13" || property == "C11" || property == "C15" || property == "C05" || property == "C06" || r.Intn(4) == 0 {
+	if property == "C13" || property == "C11" || property == "C15" || property == "C05" || property == "C06" || (property != "C20" && r.Intn(4) == 0) {
 		n := 1 + r.Intn(3)
 		for i := 0; i < n && len(jobNames) > 0; i++ {
 			name := jobNames[r.Intn(len(jobNames))]
